@@ -155,6 +155,11 @@ impl Quiescence {
     pub fn value(&mut self, bitboard: Bitboard) -> i32 {
         self.search.verif_quiescence(bitboard)
     }
+
+    /// the same on the window (alpha, beta)
+    pub fn value_window(&mut self, bitboard: Bitboard, alpha: i32, beta: i32) -> i32 {
+        self.search.verif_quiescence_window(bitboard, alpha, beta)
+    }
 }
 
 // ---- the transposition table as the search holds it ---------------------------------------------
